@@ -36,6 +36,9 @@
 (* dependency analysis, status report, placeholder state); inspections are *)
 (* read-only, so every clause of C05 holds whoever looked at the workflow. *)
 (*                                                                         *)
+(* An unrolling happens because the condition of the newest iteration said *)
+(* "true"; when it says "false" the loop is over (action Finish).           *)
+(*                                                                         *)
 (* An iteration number is a natural number.  The implementation embeds it  *)
 (* in the component name as a decimal numeral (`10#c`); LexLess below is   *)
 (* the order of those numerals as strings, kept in the spec as a named     *)
